@@ -1,0 +1,201 @@
+// Copyright 2024 RisingLight Project Authors. Licensed under Apache-2.0.
+
+//! Verification hooks of the secondary storage engine (cargo feature `verif`).
+//!
+//! These functions only *call* the engine's private building blocks so that an external harness
+//! can drive them with explicit options; they add no behaviour of their own.
+
+use bytes::Bytes;
+use moka::future::Cache;
+use risinglight_proto::rowset::BlockIndex;
+use risinglight_proto::rowset::block_checksum::ChecksumType;
+
+use super::*;
+use crate::array::{ArrayImpl, StringArray};
+use crate::catalog::{ColumnCatalog, ColumnDesc};
+use crate::storage::StorageResult;
+use crate::types::DataType;
+
+/// How a single column is built.
+#[derive(Clone)]
+pub struct ColumnSpec {
+    pub data_type: DataType,
+    pub nullable: bool,
+    /// 0 = plain, 1 = run-length, 2 = dictionary
+    pub encode: u8,
+    pub block_size: usize,
+    pub crc: bool,
+    pub record_first_key: bool,
+    /// `Some(w)`: fixed-width char column (only for `DataType::String`)
+    pub char_width: Option<u64>,
+}
+
+impl ColumnSpec {
+    fn options(&self) -> ColumnBuilderOptions {
+        ColumnBuilderOptions {
+            target_block_size: self.block_size,
+            checksum_type: if self.crc {
+                ChecksumType::Crc32
+            } else {
+                ChecksumType::None
+            },
+            encode_type: match self.encode {
+                0 => EncodeType::Plain,
+                1 => EncodeType::RunLength,
+                _ => EncodeType::Dictionary,
+            },
+            record_first_key: self.record_first_key,
+        }
+    }
+}
+
+/// One request to a column iterator.
+#[derive(Clone, Debug)]
+pub enum ReadOp {
+    Next(Option<usize>),
+    Skip(usize),
+    Hint,
+}
+
+/// What the column iterator answered, together with `fetch_current_row_id` after the call.
+#[derive(Debug)]
+pub enum ReadOut {
+    Batch(Option<(u32, ArrayImpl)>, u32),
+    Skipped(u32),
+    Hint(usize, bool),
+}
+
+/// Build one column from `arrays` (appended one after the other); returns block index and data.
+pub fn build_column(spec: &ColumnSpec, arrays: &[ArrayImpl]) -> (Vec<BlockIndex>, Vec<u8>) {
+    if let (DataType::String, Some(w)) = (&spec.data_type, spec.char_width) {
+        let mut b = CharColumnBuilder::new(spec.nullable, Some(w), spec.options());
+        for a in arrays {
+            let ArrayImpl::String(a) = a else {
+                panic!("string array expected")
+            };
+            b.append(a);
+        }
+        return b.finish();
+    }
+    let mut b = ColumnBuilderImpl::new_from_datatype(&spec.data_type, spec.nullable, spec.options());
+    for a in arrays {
+        b.append(a);
+    }
+    b.finish()
+}
+
+/// Serialize a block index with `IndexBuilder` (the `.idx` file content).
+pub fn build_index_file(crc: bool, index: &[BlockIndex]) -> Vec<u8> {
+    let mut b = IndexBuilder::new(
+        if crc {
+            ChecksumType::Crc32
+        } else {
+            ChecksumType::None
+        },
+        index.len(),
+    );
+    for i in index {
+        b.append(i.clone());
+    }
+    b.finish()
+}
+
+/// Parse an `.idx` file content.
+pub fn parse_index_file(data: &[u8]) -> StorageResult<Vec<BlockIndex>> {
+    Ok(ColumnIndex::from_bytes(data)?.indexes().to_vec())
+}
+
+fn column_of(index_file: &[u8], data: &[u8]) -> StorageResult<Column> {
+    Ok(Column::new(
+        ColumnIndex::from_bytes(index_file)?,
+        ColumnReadableFile::InMemory(Bytes::copy_from_slice(data)),
+        Cache::new(64),
+        BlockCacheKey::default(),
+    ))
+}
+
+/// Open a column iterator at `start` over (`index_file`, `data`) and run `ops` on it.
+pub async fn read_column(
+    spec: &ColumnSpec,
+    index_file: &[u8],
+    data: &[u8],
+    start: u32,
+    ops: &[ReadOp],
+) -> StorageResult<Vec<ReadOut>> {
+    let column = column_of(index_file, data)?;
+    let mut out = vec![];
+    if let (DataType::String, Some(w)) = (&spec.data_type, spec.char_width) {
+        let mut it =
+            CharColumnIterator::new(column, start, CharBlockIteratorFactory::new(Some(w as usize)))
+                .await?;
+        for op in ops {
+            out.push(match op {
+                ReadOp::Next(n) => {
+                    let r = it.next_batch(*n).await?;
+                    ReadOut::Batch(
+                        r.map(|(id, a): (u32, StringArray)| (id, a.into())),
+                        it.fetch_current_row_id(),
+                    )
+                }
+                ReadOp::Skip(n) => {
+                    it.skip(*n);
+                    ReadOut::Skipped(it.fetch_current_row_id())
+                }
+                ReadOp::Hint => {
+                    let (a, b) = it.fetch_hint();
+                    ReadOut::Hint(a, b)
+                }
+            });
+        }
+        return Ok(out);
+    }
+    let info = ColumnCatalog::new(
+        0,
+        ColumnDesc::new("c", spec.data_type.clone(), spec.nullable),
+    );
+    let mut it = ColumnIteratorImpl::new(column, &info, start).await?;
+    for op in ops {
+        out.push(match op {
+            ReadOp::Next(n) => {
+                let r = it.next_batch(*n).await?;
+                ReadOut::Batch(r, it.fetch_current_row_id())
+            }
+            ReadOp::Skip(n) => {
+                it.skip(*n);
+                ReadOut::Skipped(it.fetch_current_row_id())
+            }
+            ReadOp::Hint => {
+                let (a, b) = it.fetch_hint();
+                ReadOut::Hint(a, b)
+            }
+        });
+    }
+    Ok(out)
+}
+
+/// Read block `block_id` of a column through `Column::get_block` `times` times (same cache).
+pub async fn get_block_repeated(
+    index_file: &[u8],
+    data: &[u8],
+    block_id: u32,
+    times: usize,
+) -> StorageResult<Vec<StorageResult<Vec<u8>>>> {
+    let column = column_of(index_file, data)?;
+    let mut out = vec![];
+    for _ in 0..times {
+        out.push(column.get_block(block_id).await.map(|(_, b)| b.to_vec()));
+    }
+    Ok(out)
+}
+
+/// `build_checksum` of the engine.
+pub fn checksum(crc: bool, data: &[u8]) -> u64 {
+    build_checksum(
+        if crc {
+            ChecksumType::Crc32
+        } else {
+            ChecksumType::None
+        },
+        data,
+    )
+}
